@@ -57,12 +57,65 @@ def _opt_int(tok):
     return True, int(tok)
 
 
+META_KEYS = ("reference", "documentation", "unit", "cerfa_field", "calculate_output", "is_period_size_independent",
+             "max_length")
+#: declarations `Variable.__init__` refuses (meta key "bad"): attribute -> value, as `class_attrs` sets them
+BAD_DECLARATIONS = {
+    "label_int": ("label", 5), "end_int0": ("end", 0), "doc_int0": ("documentation", 0), "unit_int": ("unit", 3),
+    "ipsi_str": ("is_period_size_independent", "yes"), "cerfa_int": ("cerfa_field", 7), "reference_int": ("reference", 5),
+    "dp_bad": ("definition_period", "fortnight"), "vt_bad": ("value_type", complex), "default_list": ("default_value", [1]),
+    "entity_str": ("entity", "person"), "unexpected": ("colour", "blue"), "formula_name": ("formula_2018_13", None),
+    "end_format": ("end", "2018-13-01"), "label_list": ("label", ["a"]), "doc_false": ("documentation", False),
+    "end_false": ("end", False), "formula_nomatch": ("formula_x", None), "reference_list_int": ("reference", ["a", 5]),
+    "label_true": ("label", True), "ipsi_int": ("is_period_size_independent", 1),
+}
+
+
+def attr_tok(x) -> str:
+    """opaque token of an attribute value (`-` = None)"""
+    if x is None:
+        return "-"
+    if isinstance(x, tuple):
+        x = list(x)
+    return "j" + hexjson(x)
+
+
+def model_attrs(meta) -> dict:
+    """key -> what `Variable.__init__` makes of the DECLARED value (the `attrs` field of the protocol): `set_label` and
+    `set_documentation` turn a falsy value into None (and dedent), `set_reference` wraps a string and lists a tuple, a
+    falsy `calculate_output` counts as not given, every other value is kept as it is"""
+    out = {}
+    m = meta or {}
+    if "label" in m:
+        out["label"] = m["label"] or None
+    if "reference" in m:
+        ref = m["reference"]
+        out["reference"] = list(ref["t"]) if isinstance(ref, dict) else [ref] if isinstance(ref, str) and ref else ref
+    if "documentation" in m:
+        out["documentation"] = textwrap.dedent(m["documentation"]) if m["documentation"] else None
+    for k in ("unit", "max_length", "is_period_size_independent"):
+        if k in m:
+            out[k] = m[k]
+    if "cerfa_field" in m:
+        out["cerfa_field"] = m["cerfa_field"]["d"] if isinstance(m["cerfa_field"], dict) else m["cerfa_field"]
+    if "calculate_output" in m:
+        out["calculate_output"] = m["calculate_output"] or None
+    return out
+
+
+def fmt_attrs(meta) -> str:
+    items = [f"{k}={attr_tok(v)}" for k, v in sorted(model_attrs(meta).items())]
+    if (meta or {}).get("bad"):
+        items.append("bad=1")
+    return ",".join(items) or "-"
+
+
 def parse_classdef(tok):
     f = tok.split(":")
-    if len(f) not in (8, 9) or f[0] == "":
+    if len(f) not in (8, 9, 10) or f[0] == "":
         return None
     meta = None
-    if len(f) == 9:
+    if len(f) >= 9:
         try:
             meta = unhexjson(f[8])
         except Exception:
@@ -85,7 +138,7 @@ def fmt_classdef(cd) -> str:
     fs = ",".join(f"{d}>{n}" for d, n in cd["formulas"]) or "-"
     t = lambda x: "-" if x is None else str(x)
     return ":".join([cd["name"], t(cd["vt"]), t(cd["default"]), t(cd["entity"]), t(cd["dp"]), t(cd["end"]), t(cd["si"]), fs]
-                    + ([hexjson(cd["meta"])] if cd.get("meta") else []))
+                    + ([hexjson(cd["meta"]), fmt_attrs(cd["meta"])] if cd.get("meta") else []))
 
 
 def parse_pupd(tok):
@@ -517,12 +570,17 @@ class Ctx:
             if k == "set_input_none":
                 if cd["si"] is None:
                     attrs["set_input"] = None           # declared, but falsy: inherited all the same
+            elif k == "bad":
+                pass                                    # (below: it overrides whatever else is declared)
             elif k == "calculate_output":
                 attrs[k] = self.co[x] if x else None
             elif isinstance(x, dict):
                 attrs[k] = tuple(x["t"]) if "t" in x else x["d"]
             else:
                 attrs[k] = x
+        if (cd.get("meta") or {}).get("bad"):
+            an, val = BAD_DECLARATIONS[cd["meta"]["bad"]]          # a declaration `Variable.__init__` refuses
+            attrs[an] = self.make_formula(min(self.fdefs) if self.fdefs else 1) if an.startswith("formula") else val
         return attrs
 
     # -- operations
@@ -551,14 +609,22 @@ class Ctx:
                 d = dt.date.fromordinal(o)
                 return Instant((d.year, d.month, d.day))
 
+            # how the modifier function is written: it updates the tree it is given and returns it, or it returns
+            # ANOTHER node — a `clone()` / a deep copy of the tree it was given, updated (the contract is "takes a
+            # ParameterNode and returns an object of the same type": the reform's tree is what the modifier returns)
+            spelling = zlib.crc32(repr(x).encode()) % 3
+
             def modifier(p):
+                import copy
+                q = p if spelling == 0 else p.clone() if spelling == 1 else copy.deepcopy(p)
                 for u in x:
-                    getattr(p, u["name"]).update(start=inst(u["a"]), stop=None if u["b"] is None else inst(u["b"]),
+                    getattr(q, u["name"]).update(start=inst(u["a"]), stop=None if u["b"] is None else inst(u["b"]),
                                                  value=None if u["v"] is None else value_of_tok(u["v"]))
-                return p
+                return q
             if getattr(t, "baseline", None) is not None:
                 t.modify_parameters(modifier)
             else:
+                spelling = 0          # (a plain system has no modify_parameters: its own tree is updated in place)
                 modifier(t.parameters)
 
     # -- generated code for the test runner
@@ -677,6 +743,8 @@ class Real(Ctx):
         b = v.baseline_variable
         bl = "-" if b is None else next((str(j) for j in range(len(self.systems)) if self.systems[j].variables.get(name) is b), "x")
         bad = [e.key for e in t.entities_by_singular().values() if e.get_variable(name) is not v]
+        if t.get_variable(name) is not v or t.get_variable(name, check_existence=True) is not v:
+            bad.append("get_variable")          # the system's own look-up, with and without the existence check
         via = "ok" if not bad else "!" + "^".join(bad)
         from openfisca_core.indexed_enums import Enum
         vt = {float: "float", int: "int", bool: "bool", datetime.date: "date", Enum: "enum", str: "str"}.get(v.value_type, "?")
@@ -697,15 +765,30 @@ class Real(Ctx):
             else:
                 f = v.get_formula(Period((DateUnit.DAY, Instant((d.year, d.month, d.day)), 1)))
             ats.append("-" if f is None else self.fml_tok(f))
+        co = {self.co["add"]: "add", self.co["divide"]: "divide"}
+        attrs = []
+        for key in META_KEYS:
+            x = getattr(v, key, None)
+            if key == "calculate_output" and x is not None:
+                x = co.get(x, "?")
+            attrs.append(attr_tok(x))
         return (f"{name}({own},{bl},{via},{vt},{tok_of_value(v.default_value)},{v.entity.key},{dp},{end},{si},"
-                f"{'T' if v.is_neutralized else 'F'},{fs},{'^'.join(ats)})")
+                f"{'T' if v.is_neutralized else 'F'},{fs},{'^'.join(ats)},{'T' if v.is_input_variable() else 'F'},"
+                f"{label_tok(v.label)},{'~'.join(attrs)})")
 
     def snap(self, k, qs) -> str:
         t = self.systems[k]
         names = sorted(t.variables)
         earlier = [e for j in range(k) for e in self.systems[j].entities]
-        ents = [f"{e.key}^{'T' if e._tax_benefit_system is t else 'F'}^{'F' if any(e is x for x in earlier) else 'T'}"
+        def own(e):
+            """bound to this system, and the very object `person_entity` / `group_entities` hand to
+            `instantiate_entities` (the populations of a simulation resolve variables through it)"""
+            listed = e is t.person_entity if e.is_person else any(e is g for g in t.group_entities)
+            return e._tax_benefit_system is t and listed
+        ents = [f"{e.key}^{'T' if own(e) else 'F'}^{'F' if any(e is x for x in earlier) else 'T'}"
                 f"^{'~'.join(sorted(t.get_variables(entity=e)))}" for e in t.entities]
+        if len(t.group_entities) + 1 != len(t.entities):
+            ents.append("?entities-miscounted^F^F^")
         assert t.get_variables() is t.variables
         unbound = True
         for proto in self.protos.values():          # the entity objects handed to the constructor stay unbound
@@ -731,8 +814,8 @@ class Real(Ctx):
 
     # -- simulations
 
-    def simulate(self, t, plan, spiral=None, probe_absent=False):
-        """one fresh simulation: the applicable inputs, then the requests in order"""
+    def prepare(self, t, plan, spiral=None):
+        """a fresh simulation with the applicable inputs set -> (simulation, what the inputs answered)"""
         import numpy
         from openfisca_core.simulations import SimulationBuilder
         sit = {"persons": {p: {} for p in PERSONS}, "households": {h: {"members": ms} for h, ms in HOUSEHOLDS.items()}}
@@ -762,6 +845,12 @@ class Real(Ctx):
                 sim.set_input(name, f"{y}-{m:02d}" if kind == "month" else str(y), numpy.array(vals))
             except Exception as e:
                 out.append(f"input:{name}:ERR:{type(e).__name__}")
+        return sim, out
+
+    def simulate(self, t, plan, spiral=None, probe_absent=False, prepared=None):
+        """one fresh simulation (or one `prepare`d earlier): the applicable inputs, then the requests in order"""
+        sim, out = prepared if prepared is not None else self.prepare(t, plan, spiral)
+        out = list(out)
         for name, y, m in plan["requests"]:
             v = t.variables.get(name)
             if v is None and not probe_absent:
@@ -794,6 +883,26 @@ class Real(Ctx):
             except Exception as e:
                 out.append("ERR:" + type(e).__name__)
         return out
+
+
+def label_tok(label) -> str:
+    """`-`, the token of the label, or `N(<token of the neutralised variable's label>)`: `get_neutralized_variable`
+    stores the 1-tuple `("[Neutralized] <label>",)` (the label of the variable it neutralises is formatted into it, a
+    tuple again when that one was neutralised already)"""
+    import ast
+    pre = "[Neutralized]"
+    if isinstance(label, tuple) and len(label) == 1 and isinstance(label[0], str) and label[0].startswith(pre):
+        rest = label[0][len(pre):]
+        if rest == "":
+            return "N(-)"
+        inner = rest[1:] if rest.startswith(" ") else None
+        if inner is not None and inner.startswith("(") and inner.endswith(",)"):
+            try:
+                inner = ast.literal_eval(inner)
+            except (ValueError, SyntaxError):
+                pass
+        return "N(" + (label_tok(inner) if inner is not None else "?") + ")"
+    return attr_tok(label)
 
 
 def meta_of(t):
